@@ -150,6 +150,7 @@ bool ops_misc(Ctx& c, const json& s, int idx, bool& handled) {
 		auto note = [&] { return where("state " + state + " flags " + std::to_string(flags) + " writes " + std::to_string(k)); };
 		if (refused != wantRefused) { Proto::mismatch(fsite, refused ? "refused-should-accept" : "accepted-should-refuse", note()); return false; }
 		if (state == "dir") { if (!fs::is_directory(path)) { Proto::mismatch(fsite, "directory-altered", note()); return false; } return true; }
+		if (s.contains("parentAfter") && state == "noparent" && fs::exists(ROOT + "/missing") != s["parentAfter"].get<bool>()) { Proto::mismatch(fsite, refused ? "refused-open-created-the-directory" : "directory-not-created", note()); return false; }
 		const bool exists = fs::is_regular_file(path);
 		if (exists != s["existsAfter"].get<bool>()) { Proto::mismatch(fsite, refused ? "refused-open-created-or-removed-the-file" : "not-created", note()); return false; }
 		if (exists && !s["unspecified"].get<bool>()) { auto got = Scen::slurp(path), want = raw(s["final"]); if (got != want) { Proto::mismatch(fsite, refused ? "refused-open-altered-the-file" : "content", note() + " " + Scen::hexdiff(got, want)); return false; } }
